@@ -712,6 +712,10 @@ func evalStack(sstack []any) []any {
 					sstack[i] = boo == (len(tl) == 0)
 				case map[string]any:
 					sstack[i] = boo == (len(tl) == 0)
+				case gen.Array:
+					sstack[i] = boo == (len(tl) == 0)
+				case gen.Object:
+					sstack[i] = boo == (len(tl) == 0)
 				}
 			}
 		case has.code, exists.code:
@@ -741,6 +745,10 @@ func evalStack(sstack []any) []any {
 			case []any:
 				sstack[i] = int64(len(tl))
 			case map[string]any:
+				sstack[i] = int64(len(tl))
+			case gen.Array:
+				sstack[i] = int64(len(tl))
+			case gen.Object:
 				sstack[i] = int64(len(tl))
 			}
 		case count.code:
